@@ -96,10 +96,20 @@ Lemma witness_server_chain_view :
             vw_server_chain (oc_client o) <> vw_server_chain (oc_server o).
 Proof. eexists. split; [vm_compute; reflexivity|vm_compute; discriminate]. Qed.
 
-(* 6. a handshake that ends without any alert: ALPN offered to a TLS 1.3 server that has none *)
+(* 6. a handshake that ends without any alert: a server with an Ed25519 certificate facing a client
+      limited to TLS 1.1 dies with a TypeError while signing ServerKeyExchange *)
+Definition ed25519_cert := {| ct_alg := 3; ct_bits := 253; ct_curve := 0; ct_id := 5; ct_small_key := false |}.
 Lemma witness_no_alert :
-  negotiate (client_of D 0 None (Some [1])) (server_of D (Some rsa2048) false false None) = Err (OtherExn 2900).
+  negotiate (client_of (with_versions D 1 2 [2; 1] [0]) 0 None None)
+            (server_of D (Some ed25519_cert) false false None) = Err (OtherExn 2900).
 Proof. vm_compute. reflexivity. Qed.
+
+(* ALPN offered to a TLS 1.3 server that has none configured: ignored, the handshake completes *)
+Example alpn_ignored_without_server_list :
+  match negotiate (client_of D 0 None (Some [1])) (server_of D (Some rsa2048) false false None) with
+  | Ok o => vw_alpn (oc_client o) = None /\ vw_alpn (oc_server o) = None
+  | Err _ => False end.
+Proof. vm_compute. split; reflexivity. Qed.
 
 (* ---- statements of Props/C03.v that need more than one step ---------------------------- *)
 Lemma views_agree_refuted_client_chain_pf :
@@ -177,7 +187,8 @@ Qed.
 Lemma failure_is_alert_refuted_pf :
   exists c s, negotiate c s = Err (OtherExn 2900).
 Proof.
-  exists (client_of D 0 None (Some [1])), (server_of D (Some rsa2048) false false None). exact witness_no_alert.
+  exists (client_of (with_versions D 1 2 [2; 1] [0]) 0 None None), (server_of D (Some ed25519_cert) false false None).
+  exact witness_no_alert.
 Qed.
 
 Lemma default_pair_pf : exists o, negotiate (client_of D 0 None None) (server_of D (Some rsa2048) false false None) = Ok o
